@@ -19,7 +19,7 @@ def expected_method_token(opts, world):
     return opts.get("method") or "fifo"
 
 
-def layout_case(tag, world, opts, prestate=None, input_bytes=None, config_text=None, readonly_inputs=False):
+def layout_case(tag, world, opts, prestate=None, input_bytes=None, config_text=None, readonly_inputs=False, bystanders=False):
     """Create the world directory of a case and write config + spreadsheet (+ pre-state)."""
     w = runner.World(tag)
     cfg_text, ods = W.materialize(world) if (input_bytes is None or config_text is None) else (None, None)
@@ -32,7 +32,28 @@ def layout_case(tag, world, opts, prestate=None, input_bytes=None, config_text=N
     w.put(files["input"], ods, 0o444 if readonly_inputs else None, mtime=opts.get("input_mtime"))
     fix_outdir(w, opts)
     apply_prestate(w, opts, world, prestate or [])
+    if bystanders:
+        add_bystanders(w, opts)
     return w, files
+
+
+def add_bystanders(w, opts):
+    """Files of other people and other programs all over the simulated world - next to the output directory, in the cwd, beside the
+    inputs, in the home and temp directories - that no run may touch: the whole-world listing shows if one disappears or changes."""
+    spots = [w.work, os.path.dirname(out_abs(w, opts)), os.path.join(w.work, os.path.dirname(opts.get("files_in", "") or "x/")[:0] or opts.get("files_in", "") or ""), w.home, w.tmp]
+    names = ["scratch.tmp", "wallet-export.tmp", "keep.ods", "old report.ods.bak", ".rp2rc", "notes.log", "lock.pid"]
+    for k, d in enumerate(dict.fromkeys(os.path.normpath(x) for x in spots)):
+        if not d.startswith(os.path.normpath(w.world)):
+            continue
+        try:
+            os.makedirs(d, exist_ok=True)
+            for j, n in enumerate(names):
+                p = os.path.join(d, n)
+                if not os.path.lexists(p) and (k + j) % 2 == 0:
+                    with open(p, "wb") as fh:
+                        fh.write(b"bystander %d %d\n" % (k, j))
+        except OSError:
+            pass
 
 
 def fix_outdir(w, opts):
@@ -255,6 +276,8 @@ def host_perturbations(host):
         kinds.append("aslr")
     if host.get("sched_seed"):
         kinds.append("schedule")
+    if host.get("tty"):
+        kinds.append("tty")
     if host.get("user") or host.get("hostname") or host.get("columns") or host.get("umask") is not None:
         kinds.append("identity")
     return kinds
